@@ -87,6 +87,14 @@ def grammar_seeds(chk, wd):
     return path
 
 
+# trace validation processes side by side: each may grow to its 3 GB heap, keep the sum well below the machine's memory
+try:
+    _mem_gb = int(open("/proc/meminfo").readline().split()[1]) // (1 << 20)
+except Exception:
+    _mem_gb = 32
+MAXPAR = max(2, min(12, common.NCPU, _mem_gb // 5))
+
+
 def gen_faults(chk, tier, wd, seeds, nseeds):
     cfg = TIERS[tier]
     out = os.path.join(wd, "faults.ndjson")
@@ -210,7 +218,7 @@ def run_into(chk, prop, tier, wd, extra_corpus=None, faults_only=False):
         cnt_set = 0
         for pre in prefixes:
             cnt, rejects, states, trans = validate_chunks("ParserTrace", [], pre, cfg["chunks"], os.path.join(wd, "v-" + os.path.basename(pre)),
-                                                          maxpar=16, heap="3g", step_mode=True, timeout=6000)
+                                                          maxpar=MAXPAR, heap="3g", step_mode=True, timeout=9000)
             cnt_set += cnt
             chk.cov["states"] += states
             chk.cov["transitions"] += trans
